@@ -90,6 +90,11 @@ fn run_exec<C: CellType, E: Executable<C>>(case: &Case, world: *mut World, exec:
     if let Some(d) = case.far_move {
         ctx.memory.mov(d as isize);
     }
+    // E11: what the stack below this frame holds is whatever earlier calls left there (time
+    // stamps, pointers, lengths). Code that reads a stack slot before writing it therefore
+    // behaves differently from run to run; with the junk pattern there it misbehaves every time.
+    #[cfg(not(miri))]
+    poison_stack(case.junk | 0x8000_0000_0000_0001);
     let r = catch_unwind(AssertUnwindSafe(|| match case.mode {
         Mode::Execute => exec.execute(&mut ctx).map(|_| true),
         Mode::Limited(b) => {
@@ -120,6 +125,18 @@ fn run_exec<C: CellType, E: Executable<C>>(case: &Case, world: *mut World, exec:
         galloc::zone_exit();
     }
     RunInfo { result: res, budget_left, pregrown, survived }
+}
+
+/// Fill 64 KiB of stack below the caller's frame with `pattern`.
+#[cfg(not(miri))]
+#[inline(never)]
+fn poison_stack(pattern: u64) {
+    let mut buf = [0u64; 8192];
+    for x in buf.iter_mut() {
+        // Safety: plain volatile stores into a local array (kept by the compiler that way)
+        unsafe { std::ptr::write_volatile(x, pattern) };
+    }
+    std::hint::black_box(&buf);
 }
 
 fn run_typed<C: CellType>(case: &Case, world: *mut World) -> RunInfo {
